@@ -8,7 +8,7 @@ git -C /repo worktree remove --force $W >/dev/null 2>&1
 git -C /repo worktree add --detach $W HEAD >/dev/null 2>&1 || { echo "$P: cannot create worktree"; exit 2; }
 export OMP_NUM_THREADS=2 MKL_NUM_THREADS=2 OPENBLAS_NUM_THREADS=2
 cd /verif
-for S in $P R2$P R3$P R4$P R5$P R6$P; do
+for S in $P R2$P R3$P R4$P R5$P R6$P R7$P; do
   [ -f seeded/$S/patch.diff ] || continue
   git -C $W checkout -- . ; git -C $W apply /verif/seeded/$S/patch.diff || { echo "$S patch-does-not-apply"; continue; }
   VERIF_REPO=$W ./check $P --tier quick > /tmp/wt/lane_$P.log 2>&1; RC=$?
